@@ -216,3 +216,16 @@ package schema
 //@   loop 6 for
 //@     invariant r >= 0 && rows != nil && incoming != nil && occupied != nil
 //@     exit ensures [the-chosen-row-is-free] !has(occupied, r) && r >= 0
+
+// The layout works on one record per flow node with a non-empty id (first occurrence wins), in document order, with
+// the node's default size.
+//@ func collectProcessFlowNodes
+//@   prop C19
+//@   requires process != nil
+//@   ensures [records-are-real] forall a int :: off(result) <= a && a < off(result) + len(result) ==> at(result, a) != nil
+//@   ensures [sizes-are-the-positive-defaults] forall a int :: off(result) <= a && a < off(result) + len(result) ==>
+//@             36.0 <= at(result, a).width && at(result, a).width <= 120.0 && 36.0 <= at(result, a).height && at(result, a).height <= 100.0
+//@   loop 1 range flowElements
+//@     invariant seen != nil
+//@     invariant forall a int :: off(nodes) <= a && a < off(nodes) + len(nodes) ==> at(nodes, a) != nil && fresh(at(nodes, a)) &&
+//@                 36.0 <= at(nodes, a).width && at(nodes, a).width <= 120.0 && 36.0 <= at(nodes, a).height && at(nodes, a).height <= 100.0
